@@ -289,6 +289,9 @@ def fixed_cases() -> list:
         # one attribute block, first with withdrawn routes beside the announce, then without, and the other way round
         {'messages': [[0, UPDATE, build.update_body(bytes([24, 10, 0, 2]), block, bytes([24, 10, 0, 1])).hex()], [0, UPDATE, plain]], 'motifs': ['fixed:withdrawn-then-not']},
         {'messages': [[0, UPDATE, plain], [0, UPDATE, build.update_body(bytes([24, 10, 0, 2]), block, bytes([24, 10, 0, 1])).hex()]], 'motifs': ['fixed:not-then-withdrawn']},
+        # one neighbor, two establishments with different negotiation results (A: ipv4 + ipv6 unicast, E: ipv4 unicast only)
+        {'messages': [[0, UPDATE, plain], [4, UPDATE, plain], [0, UPDATE, plain]], 'motifs': ['fixed:same-neighbor-renegotiated']},
+        {'messages': [[4, UPDATE, plain], [0, UPDATE, plain]], 'motifs': ['fixed:same-neighbor-renegotiated-reversed']},
         # a labelled route and a VPN route, each announced again with another label (sessions B and C)
         {'messages': [_labelled(1, 4, 100), _labelled(1, 4, 200), _labelled(1, 4, 100)], 'motifs': ['fixed:labelled-route-another-label']},
         {'messages': [_labelled(2, 128, 300), _labelled(2, 128, 301)], 'motifs': ['fixed:vpn-route-another-label']},
